@@ -1,1 +1,409 @@
-/- C19: property theorems (not built yet). -/
+/-
+  C19 — Rounding family: decimal-exact, half away from zero, correct brackets.
+
+  Statement (properties.jsonl): "ROUND(x, d) is the multiple of 10^-d nearest to the shortest decimal rendering of x with
+  ties away from zero, for positive, zero and negative d; ROUNDDOWN/TRUNC move toward zero and ROUNDUP away from zero to
+  such a multiple, so ROUNDDOWN <= |x| <= ROUNDUP in magnitude and all three fix exact multiples. INT is floor;
+  MOD(n, d) has the sign of d and n = d*INT(n/d) + MOD(n, d); CEILING/FLOOR (and .MATH/.PRECISE) return the adjacent
+  multiples of the significance bracketing x; EVEN/ODD return the next even/odd integer away from zero."
+
+  Model: Pycel/Model/Rounding.lean (excellib.py round_, _round, roundup, rounddown, trunc, int_, mod, ceiling*, floor*,
+  even, odd) over exact rationals: `x : Rat` is the decimal a float's shortest repr shows.  All theorems are for ALL
+  rationals x and ALL integers d (unit d = 10^-d, either sign of d), proved by arithmetic on ⌊·⌋ / ⌈·⌉ — no enumeration.
+  `rabs` is |·|.
+-/
+import Pycel.Lemmas.Rounding
+namespace Pycel.Rounding
+open Pycel
+
+/-! ## ROUND -/
+
+/-- **C19** "ROUND(x, d) is the multiple of 10^-d …, for positive, zero and negative d": a multiple of the unit, any integer d. -/
+theorem C19_round_multiple (x : Rat) (d : Int) : ∃ n : Int, round_ x d = (n : Rat) * unit d := by
+  obtain ⟨n, _, hr, _, _⟩ := roundHalfAway_spec (unit d) x (unit_pos d)
+  simp only [round_, pyTrunc_int, hr, withSign]
+  split
+  · exact ⟨n, rfl⟩
+  · exact ⟨-n, by simp [Rat.intCast_neg, Rat.neg_mul]⟩
+
+/-- **C19** "… nearest to … x": never more than half a unit away. -/
+theorem C19_round_half_unit (x : Rat) (d : Int) : rabs (round_ x d - x) ≤ unit d / 2 := by
+  have hu := unit_pos d
+  obtain ⟨n, hn0, hr, h1, h2⟩ := roundHalfAway_spec (unit d) x hu
+  have hp := mul_unit_nonneg hn0 hu
+  simp only [round_, pyTrunc_int, hr]
+  unfold rabs withSign at *
+  split at h1 <;> grind
+
+/-- **C19** "… the multiple of 10^-d nearest to the shortest decimal rendering of x": no multiple of the unit is closer. -/
+theorem C19_round_nearest (x : Rat) (d : Int) (m : Int) :
+    rabs (round_ x d - x) ≤ rabs ((m : Rat) * unit d - x) := by
+  have hu := unit_pos d
+  obtain ⟨n, hn0, hr, h1, h2⟩ := roundHalfAway_spec (unit d) x hu
+  simp only [round_, pyTrunc_int, hr]
+  by_cases hx : 0 ≤ x
+  · have ha : rabs x = x := by simp [rabs, hx]
+    rw [ha] at h1 h2
+    simp only [withSign, hx, ↓reduceIte]
+    exact nearest_aux (unit d) x n m hu h1 h2
+  · have ha : rabs x = -x := by simp [rabs, hx]
+    rw [ha] at h1 h2
+    simp only [withSign, hx, ↓reduceIte]
+    have := nearest_aux (unit d) (-x) n (-m) hu h1 h2
+    rw [Rat.intCast_neg] at this
+    unfold rabs at *
+    grind
+
+/-- **C19** "… with ties away from zero": when x is exactly half a unit from the result, the result is the larger one in
+    magnitude, |ROUND| = |x| + unit/2 (so ROUND(25,-1) = 30, ROUND(-2.5,0) = -3). -/
+theorem C19_round_tie_away (x : Rat) (d : Int) (htie : rabs (round_ x d - x) = unit d / 2) :
+    rabs (round_ x d) = rabs x + unit d / 2 := by
+  have hu := unit_pos d
+  obtain ⟨n, hn0, hr, h1, h2⟩ := roundHalfAway_spec (unit d) x hu
+  have hp := mul_unit_nonneg hn0 hu
+  simp only [round_, pyTrunc_int, hr] at htie ⊢
+  unfold rabs withSign at *
+  split at h1 <;> grind
+
+/-- **C19** the result keeps the side of zero of x (so "away from zero" and "toward zero" are meaningful). -/
+theorem C19_round_sign (x : Rat) (d : Int) :
+    (0 ≤ x → 0 ≤ round_ x d) ∧ (x < 0 → round_ x d ≤ 0) := by
+  have hu := unit_pos d
+  obtain ⟨n, hn0, hr, h1, h2⟩ := roundHalfAway_spec (unit d) x hu
+  have hp := mul_unit_nonneg hn0 hu
+  simp only [round_, pyTrunc_int, hr]
+  unfold rabs withSign at *
+  split at h1 <;> grind
+
+/-! ## ROUNDDOWN / ROUNDUP / TRUNC -/
+
+/-- **C19** "ROUNDDOWN/TRUNC move toward zero … to such a multiple". -/
+theorem C19_rounddown_multiple (x : Rat) (d : Int) : ∃ n : Int, rounddown x d = (n : Rat) * unit d := by
+  obtain ⟨n, _, hr, _, _⟩ := roundDown_spec (unit d) x (unit_pos d)
+  simp only [rounddown, pyTrunc_int, hr, withSign]
+  split
+  · exact ⟨n, rfl⟩
+  · exact ⟨-n, by simp [Rat.intCast_neg, Rat.neg_mul]⟩
+
+/-- **C19** "… and ROUNDUP away from zero to such a multiple". -/
+theorem C19_roundup_multiple (x : Rat) (d : Int) : ∃ n : Int, roundup x d = (n : Rat) * unit d := by
+  obtain ⟨n, _, hr, _, _⟩ := roundUp_spec (unit d) x (unit_pos d)
+  simp only [roundup, pyTrunc_int, hr, withSign]
+  split
+  · exact ⟨n, rfl⟩
+  · exact ⟨-n, by simp [Rat.intCast_neg, Rat.neg_mul]⟩
+
+/-- **C19** "so ROUNDDOWN <= |x| <= ROUNDUP in magnitude". -/
+theorem C19_bracket (x : Rat) (d : Int) :
+    rabs (rounddown x d) ≤ rabs x ∧ rabs x ≤ rabs (roundup x d) := by
+  have hu := unit_pos d
+  obtain ⟨n, hn0, hr, h1, h2⟩ := roundDown_spec (unit d) x hu
+  obtain ⟨n', hn0', hr', h1', h2'⟩ := roundUp_spec (unit d) x hu
+  have hp := mul_unit_nonneg hn0 hu
+  have hp' := mul_unit_nonneg hn0' hu
+  simp only [rounddown, roundup, pyTrunc_int, hr, hr']
+  unfold rabs withSign at *
+  split at h1 <;> grind
+
+/-- **C19** the bracketing multiples are the ADJACENT ones: each within less than one unit of |x|. -/
+theorem C19_bracket_tight (x : Rat) (d : Int) :
+    rabs x - unit d < rabs (rounddown x d) ∧ rabs (roundup x d) < rabs x + unit d := by
+  have hu := unit_pos d
+  obtain ⟨n, hn0, hr, h1, h2⟩ := roundDown_spec (unit d) x hu
+  obtain ⟨n', hn0', hr', h1', h2'⟩ := roundUp_spec (unit d) x hu
+  have hp := mul_unit_nonneg hn0 hu
+  have hp' := mul_unit_nonneg hn0' hu
+  simp only [rounddown, roundup, pyTrunc_int, hr, hr']
+  unfold rabs withSign at *
+  split at h1 <;> grind
+
+/-- **C19** both keep the side of zero of x, hence "toward zero" = smaller magnitude, "away" = larger magnitude. -/
+theorem C19_down_up_sign (x : Rat) (d : Int) :
+    (0 ≤ x → 0 ≤ rounddown x d ∧ 0 ≤ roundup x d) ∧ (x < 0 → rounddown x d ≤ 0 ∧ roundup x d ≤ 0) := by
+  have hu := unit_pos d
+  obtain ⟨n, hn0, hr, h1, h2⟩ := roundDown_spec (unit d) x hu
+  obtain ⟨n', hn0', hr', h1', h2'⟩ := roundUp_spec (unit d) x hu
+  have hp := mul_unit_nonneg hn0 hu
+  have hp' := mul_unit_nonneg hn0' hu
+  simp only [rounddown, roundup, pyTrunc_int, hr, hr']
+  unfold rabs withSign at *
+  split at h1 <;> grind
+
+/-- **C19** "and all three fix exact multiples" (ROUND, ROUNDDOWN/TRUNC, ROUNDUP; any sign of the multiple and of d). -/
+theorem C19_fix_multiples (x : Rat) (d : Int) (m : Int) (hx : x = (m : Rat) * unit d) :
+    round_ x d = x ∧ rounddown x d = x ∧ roundup x d = x ∧ trunc x d = x := by
+  obtain ⟨h1, h2, h3⟩ := fix_aux (unit d) x m (unit_pos d) hx
+  simp only [round_, rounddown, roundup, trunc, pyTrunc_int]
+  exact ⟨h1, h2, h3, h2⟩
+
+/-- **C19** "ROUNDDOWN/TRUNC": TRUNC is ROUNDDOWN, so every ROUNDDOWN theorem is a TRUNC theorem. -/
+theorem C19_trunc_is_rounddown (x d : Rat) : trunc x d = rounddown x d := rfl
+
+/-! ## INT, MOD -/
+
+/-- **C19** "INT is floor": the greatest integer ≤ x. -/
+theorem C19_int_floor (x : Rat) :
+    int_ x = (x.floor : Rat) ∧ int_ x ≤ x ∧ x < int_ x + 1 ∧ ∀ n : Int, (n : Rat) ≤ x → (n : Rat) ≤ int_ x := by
+  refine ⟨rfl, Rat.floor_le x, ?_, ?_⟩
+  · have := Rat.lt_floor_add_one x
+    simpa [int_, Rat.intCast_add] using this
+  · intro n hn
+    exact Rat.intCast_le_intCast.mpr (Rat.le_floor_iff.mpr hn)
+
+/-- **C19** "n = d*INT(n/d) + MOD(n, d)" for every non-zero divisor. -/
+theorem C19_mod_identity (n d : Rat) (hd : d ≠ 0) :
+    ∃ r : Rat, mod n d = .num r ∧ n = d * int_ (n / d) + r := by
+  refine ⟨n - d * ((n / d).floor : Rat), by simp [mod, hd], ?_⟩
+  simp only [int_]; grind
+
+/-- **C19** "MOD(n, d) has the sign of d" (and is smaller than d in magnitude). -/
+theorem C19_mod_sign (n d r : Rat) (h : mod n d = .num r) :
+    (0 < d → 0 ≤ r ∧ r < d) ∧ (d < 0 → d < r ∧ r ≤ 0) := by
+  unfold mod at h
+  split at h
+  · cases h
+  · injection h with h
+    subst h
+    constructor
+    · intro hd
+      have := floor_spec d n hd
+      grind
+    · intro hd
+      have := floor_spec_neg d n hd
+      grind
+
+/-! ## CEILING / FLOOR families -/
+
+/-- **C19** "CEILING/FLOOR (and .MATH/.PRECISE) return the adjacent multiples of the significance bracketing x": FLOOR.MATH is
+    the multiple of |s| just below n (mode 0 or n ≥ 0), or just toward zero (mode set, n < 0). -/
+theorem C19_floor_math_adjacent (n s mode : Rat) (hs : s ≠ 0) :
+    (∃ m : Int, floorMath n s mode = (m : Rat) * rabs s) ∧
+    ((mode = 0 ∨ 0 ≤ n) → floorMath n s mode ≤ n ∧ n < floorMath n s mode + rabs s) ∧
+    ((mode ≠ 0 ∧ n < 0) → n ≤ floorMath n s mode ∧ floorMath n s mode - rabs s < n) := by
+  have ha := rabs_pos hs
+  by_cases hm : mode ≠ 0 ∧ n < 0
+  · have hsig : mathSig n s mode = -(rabs s) := by unfold mathSig; rw [if_pos hm]
+    unfold floorMath; rw [if_neg hs, hsig]
+    have := floor_spec_neg (-(rabs s)) n (by grind)
+    refine ⟨⟨-(n / -(rabs s)).floor, by rw [Rat.intCast_neg]; grind⟩, by grind, by grind⟩
+  · have hsig : mathSig n s mode = rabs s := by unfold mathSig; rw [if_neg hm]
+    unfold floorMath; rw [if_neg hs, hsig]
+    have := floor_spec (rabs s) n ha
+    refine ⟨⟨(n / rabs s).floor, by grind⟩, by grind, by grind⟩
+
+/-- **C19** CEILING.MATH is the multiple of |s| just above n (mode 0 or n ≥ 0), or just away from zero (mode set, n < 0). -/
+theorem C19_ceiling_math_adjacent (n s mode : Rat) (hs : s ≠ 0) :
+    (∃ m : Int, ceilingMath n s mode = (m : Rat) * rabs s) ∧
+    ((mode = 0 ∨ 0 ≤ n) → ceilingMath n s mode - rabs s < n ∧ n ≤ ceilingMath n s mode) ∧
+    ((mode ≠ 0 ∧ n < 0) → ceilingMath n s mode ≤ n ∧ n < ceilingMath n s mode + rabs s) := by
+  have ha := rabs_pos hs
+  by_cases hm : mode ≠ 0 ∧ n < 0
+  · have hsig : mathSig n s mode = -(rabs s) := by unfold mathSig; rw [if_pos hm]
+    unfold ceilingMath; rw [if_neg hs, hsig]
+    have := ceil_spec_neg (-(rabs s)) n (by grind)
+    refine ⟨⟨-(n / -(rabs s)).ceil, by rw [Rat.intCast_neg]; grind⟩, by grind, by grind⟩
+  · have hsig : mathSig n s mode = rabs s := by unfold mathSig; rw [if_neg hm]
+    unfold ceilingMath; rw [if_neg hs, hsig]
+    have := ceil_spec (rabs s) n ha
+    refine ⟨⟨(n / rabs s).ceil, by grind⟩, by grind, by grind⟩
+
+/-- **C19** .PRECISE is .MATH with mode 0, so the two theorems above cover CEILING.PRECISE / FLOOR.PRECISE. -/
+theorem C19_precise_eq_math (n s : Rat) :
+    ceilingPrecise n s = ceilingMath n s 0 ∧ floorPrecise n s = floorMath n s 0 := by
+  simp [ceilingPrecise, ceilingMath, floorPrecise, floorMath, mathSig]
+
+/-- **C19** legacy FLOOR (sign of the significance matters; s < 0 < n is #NUM!, s = 0 is #DIV/0!, both outside the property):
+    a multiple of s, just below n for s > 0, just toward zero for s < 0 (then n ≤ 0). -/
+theorem C19_floor_adjacent (n s : Rat) (hs : s ≠ 0) (hsign : ¬ (s < 0 ∧ 0 < n)) :
+    ∃ r : Rat, floor n s = .num r ∧ (∃ m : Int, r = (m : Rat) * s) ∧
+      (0 < s → r ≤ n ∧ n < r + s) ∧ (s < 0 → n ≤ r ∧ r + s < n) := by
+  unfold floor
+  rw [if_neg hsign]
+  by_cases hn : n = 0
+  · rw [if_pos hn]
+    exact ⟨0, rfl, ⟨0, by simp [Rat.zero_mul]⟩, by grind, by grind⟩
+  · rw [if_neg hn, if_neg hs]
+    refine ⟨_, rfl, ⟨(n / s).floor, by grind⟩, ?_, ?_⟩
+    · intro h; have := floor_spec s n h; grind
+    · intro h; have := floor_spec_neg s n h; grind
+
+/-- **C19** legacy CEILING: a multiple of s, just above n for s > 0, just away from zero for s < 0 (then n ≤ 0). -/
+theorem C19_ceiling_adjacent (n s : Rat) (hs : s ≠ 0) (hsign : ¬ (s < 0 ∧ 0 < n)) :
+    ∃ r : Rat, ceiling n s = .num r ∧ (∃ m : Int, r = (m : Rat) * s) ∧
+      (0 < s → r - s < n ∧ n ≤ r) ∧ (s < 0 → r ≤ n ∧ n < r - s) := by
+  unfold ceiling
+  rw [if_neg hsign]
+  by_cases hn : n = 0
+  · rw [if_pos (Or.inl hn)]
+    exact ⟨0, rfl, ⟨0, by simp [Rat.zero_mul]⟩, by grind, by grind⟩
+  · rw [if_neg (by grind)]
+    by_cases hb : n < 0 ∧ 0 < s
+    · rw [if_pos hb]
+      have hq := div_neg_of_neg_pos hb.1 hb.2
+      have ht : pyTrunc (n / s) = (n / s).ceil := by unfold pyTrunc; rw [if_neg (by grind)]
+      rw [ht]
+      refine ⟨_, rfl, ⟨(n / s).ceil, by grind⟩, ?_, ?_⟩
+      · intro h; have := ceil_spec s n h; grind
+      · intro h; grind
+    · rw [if_neg hb]
+      refine ⟨_, rfl, ⟨(n / s).ceil, by grind⟩, ?_, ?_⟩
+      · intro h; have := ceil_spec s n h; grind
+      · intro h; have := ceil_spec_neg s n h; grind
+
+/-- **C19** bracketing is tight at the multiples themselves: all six functions fix an exact multiple of the significance. -/
+theorem C19_significance_fix_multiples (n s mode : Rat) (m : Int) (hs : s ≠ 0) (hn : n = (m : Rat) * s) :
+    floorMath n s mode = n ∧ ceilingMath n s mode = n ∧ floorPrecise n s = n ∧ ceilingPrecise n s = n ∧
+    (¬ (s < 0 ∧ 0 < n) → floor n s = .num n ∧ ceiling n s = .num n) := by
+  obtain ⟨h0, m', hm'⟩ := mathSig_multiple n s mode m hs hn
+  obtain ⟨h00, m0, hm0⟩ := mathSig_multiple n s 0 m hs hn
+  have e0 : mathSig n s 0 = rabs s := by simp [mathSig]
+  rw [e0] at h00 hm0
+  have f1 := sig_fix _ n m' h0 hm'
+  have f2 := sig_fix _ n m0 h00 hm0
+  have f3 := sig_fix s n m hs hn
+  refine ⟨?_, ?_, ?_, ?_, ?_⟩
+  · unfold floorMath; rw [if_neg hs]; exact f1.1
+  · unfold ceilingMath; rw [if_neg hs]; exact f1.2.1
+  · unfold floorPrecise; rw [if_neg hs]; exact f2.1
+  · unfold ceilingPrecise; rw [if_neg hs]; exact f2.2.1
+  · intro hsign
+    constructor
+    · unfold floor; rw [if_neg hsign]
+      by_cases h : n = 0
+      · rw [if_pos h, h]
+      · rw [if_neg h, if_neg hs, f3.1]
+    · unfold ceiling; rw [if_neg hsign]
+      by_cases h : n = 0
+      · rw [if_pos (Or.inl h), h]
+      · rw [if_neg (by grind)]
+        split
+        · rw [f3.2.2]
+        · rw [f3.2.1]
+
+/-! ## EVEN / ODD -/
+
+/-- **C19** "EVEN … return the next even … integer away from zero": an even integer, at least |x|, less than |x| + 2, on the
+    side of x, and the least such in magnitude. -/
+theorem C19_even (x : Rat) :
+    (∃ m : Int, even x = 2 * (m : Rat)) ∧
+    rabs x ≤ rabs (even x) ∧ rabs (even x) < rabs x + 2 ∧
+    (0 ≤ x → 0 ≤ even x) ∧ (x < 0 → even x ≤ 0) ∧
+    (∀ k : Int, rabs x ≤ 2 * (k : Rat) → rabs (even x) ≤ 2 * (k : Rat)) := by
+  have hu : (0 : Rat) < 2 := by decide +kernel
+  have hn0 : 0 ≤ (rabs x / 2).ceil := ceil_nonneg (div_nonneg' (rabs_nonneg x) hu)
+  have hp := mul_unit_nonneg hn0 hu
+  have hc := ceil_spec 2 (rabs x) hu
+  have hr : even x = withSign x (((rabs x / 2).ceil : Rat) * 2) := rfl
+  refine ⟨?_, ?_, ?_, ?_, ?_, ?_⟩
+  · rw [hr]; unfold withSign; split
+    · exact ⟨(rabs x / 2).ceil, by grind⟩
+    · exact ⟨-(rabs x / 2).ceil, by rw [Rat.intCast_neg]; grind⟩
+  · rw [hr]; unfold rabs withSign at *; split at hc <;> grind
+  · rw [hr]; unfold rabs withSign at *; split at hc <;> grind
+  · rw [hr]; unfold rabs withSign at *; split at hc <;> grind
+  · rw [hr]; unfold rabs withSign at *; split at hc <;> grind
+  · intro k hk
+    have hq : rabs x / 2 ≤ (k : Rat) := by
+      apply Rat.not_lt.mp
+      intro hlt
+      have := (Rat.lt_div_iff hu).mp hlt
+      grind
+    have hck : (rabs x / 2).ceil ≤ k := Rat.ceil_le_iff.mpr hq
+    have := int_mul_le hck hu
+    rw [hr]; unfold rabs withSign at *; split at hc <;> grind
+
+/-- **C19** "… ODD return the next … odd integer away from zero" (ODD(0) = 1). -/
+theorem C19_odd (x : Rat) :
+    (∃ m : Int, odd x = 2 * (m : Rat) + 1) ∧
+    rabs x ≤ rabs (odd x) ∧ rabs (odd x) < rabs x + 2 ∧
+    (0 ≤ x → 0 < odd x) ∧ (x < 0 → odd x < 0) ∧
+    (∀ k : Int, rabs x ≤ 2 * (k : Rat) + 1 → 0 ≤ k → rabs (odd x) ≤ 2 * (k : Rat) + 1) := by
+  have hu : (0 : Rat) < 2 := by decide +kernel
+  have ha := rabs_nonneg x
+  have hn0 : 0 ≤ ((rabs x - 1) / 2).ceil := by
+    have h1 : ((-1 : Int) : Rat) < (rabs x - 1) / 2 := by
+      rw [Rat.lt_div_iff hu]; simp only [Rat.intCast_neg]; grind
+    have := Rat.lt_ceil_iff.mpr h1
+    omega
+  have hp := mul_unit_nonneg hn0 hu
+  have hc := ceil_spec 2 (rabs x - 1) hu
+  have hr : odd x = withSign x ((((rabs x - 1) / 2).ceil : Rat) * 2 + 1) := rfl
+  refine ⟨?_, ?_, ?_, ?_, ?_, ?_⟩
+  · rw [hr]; unfold withSign; split
+    · exact ⟨((rabs x - 1) / 2).ceil, by grind⟩
+    · exact ⟨-((rabs x - 1) / 2).ceil - 1, by rw [Rat.intCast_sub, Rat.intCast_neg]; grind⟩
+  · rw [hr]; unfold rabs withSign at *; split at hc <;> grind
+  · rw [hr]; unfold rabs withSign at *; split at hc <;> grind
+  · rw [hr]; unfold rabs withSign at *; split at hc <;> grind
+  · rw [hr]; unfold rabs withSign at *; split at hc <;> grind
+  · intro k hk _
+    have hq : (rabs x - 1) / 2 ≤ (k : Rat) := by
+      apply Rat.not_lt.mp
+      intro hlt
+      have := (Rat.lt_div_iff hu).mp hlt
+      grind
+    have hck : ((rabs x - 1) / 2).ceil ≤ k := Rat.ceil_le_iff.mpr hq
+    have := int_mul_le hck hu
+    rw [hr]; unfold rabs withSign at *; split at hc <;> grind
+
+/-! ## argument handling -/
+
+/-- **C19** code-following: `int(num_digits)` — a fractional digit count is truncated toward zero, so the integer-d theorems
+    above cover every numeric digits argument. -/
+theorem C19_digits_truncated (x d : Rat) :
+    round_ x d = round_ x ((pyTrunc d : Int) : Rat) ∧ roundup x d = roundup x ((pyTrunc d : Int) : Rat) ∧
+    rounddown x d = rounddown x ((pyTrunc d : Int) : Rat) := by
+  simp [round_, roundup, rounddown, pyTrunc_int]
+
+/-- **C19** the wrapped functions (as a formula calls them) are the functions above on numbers; the first error operand is
+    returned; non-numeric text is #VALUE!. -/
+theorem C19_call (x d n s : Rat) (e : Err) (vs : List Val) (fn : String) :
+    call "round" [.num x, .num d] = some (.num (round_ x d)) ∧
+    call "roundup" [.num x, .num d] = some (.num (roundup x d)) ∧
+    call "rounddown" [.num x, .num d] = some (.num (rounddown x d)) ∧
+    call "trunc" [.num x, .num d] = some (.num (trunc x d)) ∧
+    call "round" [.num x] = some (.num (round_ x 0)) ∧
+    call "int" [.num x] = some (.num (int_ x)) ∧
+    call "mod" [.num n, .num s] = some (mod n s) ∧
+    call "floor" [.num n, .num s] = some (floor n s) ∧
+    call "ceiling" [.num n, .num s] = some (ceiling n s) ∧
+    call "floor_math" [.num n] = some (.num (floorMath n 1 0)) ∧
+    call "ceiling_precise" [.num n, .num s] = some (.num (ceilingPrecise n s)) ∧
+    call "even" [.num x] = some (.num (even x)) ∧ call "odd" [.num x] = some (.num (odd x)) ∧
+    call fn (.err e :: vs) = some (.err e) ∧
+    call fn [.str "abc".toList] = some (.err .value) := by
+  refine ⟨rfl, rfl, rfl, rfl, rfl, rfl, rfl, rfl, rfl, rfl, rfl, rfl, rfl, ?_, ?_⟩
+  · simp [call, firstErr]
+  · simp [call, firstErr, allNumbers?, toNumber?, upperAscii]
+
+/-- **C19** the default arguments and the wrapping are those of the LIVE signatures (Generated/RoundingMeta.lean is rewritten
+    from /repo on every run): digits default to 0, significance to 1, mode to 0; every function of the family is an
+    `excel_math_func`.  A changed default or decorator breaks this theorem. -/
+theorem C19_defaults (x n s : Rat) :
+    call "round" [.num x] = some (.num (round_ x 0)) ∧ call "trunc" [.num x] = some (.num (trunc x 0)) ∧
+    call "ceiling_math" [.num n] = some (.num (ceilingMath n 1 0)) ∧
+    call "ceiling_math" [.num n, .num s] = some (.num (ceilingMath n s 0)) ∧
+    call "floor_math" [.num n] = some (.num (floorMath n 1 0)) ∧
+    call "floor_math" [.num n, .num s] = some (.num (floorMath n s 0)) ∧
+    call "ceiling_precise" [.num n] = some (.num (ceilingPrecise n 1)) ∧
+    call "floor_precise" [.num n] = some (.num (floorPrecise n 1)) ∧
+    call "roundup" [.num x] = none ∧ call "mod" [.num x] = none ∧
+    (∀ r ∈ Gen.RoundingMeta.table, r.2.2.2 = true) ∧ Gen.RoundingMeta.table.length = 14 :=
+  ⟨rfl, rfl, rfl, rfl, rfl, rfl, rfl, rfl, rfl, rfl, by decide, rfl⟩
+
+/-! ## non-vacuity: the hypotheses are satisfiable and the functions move things (the recon witnesses) -/
+
+example : round_ 25 (-1 : Int) = 30 ∧ round_ 5 (-1 : Int) = 10 ∧ round_ (-25) (-1 : Int) = -30 := by decide +kernel
+example : rabs (round_ 25 (-1 : Int) - 25) = unit (-1) / 2 := by decide +kernel          -- a genuine tie
+example : round_ (2675 / 1000) (2 : Int) = 268 / 100 ∧ round_ (-5 / 2) (0 : Int) = -3 := by decide +kernel
+example : trunc (29 / 100) (2 : Int) = 29 / 100 ∧ rounddown (-314159 / 100000) (1 : Int) = -31 / 10 ∧
+    roundup (-314159 / 100000) (1 : Int) = -32 / 10 := by decide +kernel
+example : (29 / 100 : Rat) = ((29 : Int) : Rat) * unit 2 := by decide +kernel             -- an exact multiple
+example : floor (7 / 10) (1 / 10) = .num (7 / 10) ∧ mod (7 / 10) (1 / 10) = .num 0 ∧ mod (-7) 3 = .num 2 ∧
+    mod 7 (-3) = .num (-2) := by decide +kernel
+example : ceiling (-5 / 2) (-2) = .num (-4) ∧ ceiling (-5 / 2) 2 = .num (-2) ∧ floor (-5 / 2) (-2) = .num (-2) ∧
+    floorMath (-5 / 2) 2 1 = -2 ∧ ceilingMath (-5 / 2) 2 1 = -4 ∧ floor 1 (-1) = .err .num := by decide +kernel
+example : even (-1 / 10) = -2 ∧ even 2 = 2 ∧ odd 0 = 1 ∧ odd (-3) = -3 ∧ odd (31 / 10) = 5 := by decide +kernel
+example : ¬ ((-1 : Rat) < 0 ∧ (0 : Rat) < -5 / 2) ∧ (2 : Rat) ≠ 0 := by decide +kernel  -- hypotheses of C19_ceiling_adjacent
+
+end Pycel.Rounding
